@@ -2,7 +2,7 @@
 # Builds the simulator test binaries from the current working tree of $VERIF_REPO (default /repo).
 # Usage: build.sh [e1|e2|all]   Exit 2 on build trouble.
 set -u
-VERIF=${VERIF_DIR:-/verif}
+VERIF=${VERIF_DIR:-$(cd "$(dirname "$0")" && pwd)}
 REPO=${VERIF_REPO:-/repo}
 export GOFLAGS=-mod=mod GOPROXY=off GOSUMDB=off GOTOOLCHAIN=local GOWORK=off
 export PATH=$PATH:/opt/veriftools/go1.26.8/bin
